@@ -91,12 +91,15 @@ whose keys is registered, or that occurs earlier in the list: `KeyError`), and t
 success it is the sequence of the single-file loads, on rejection nothing happens.  `db.clear([p1, p2, …])` removes the keys of
 the de-duplicated listing for the patterns, computed once on the database as it is: the sequence of the clears of those keys
 one by one (each full key taken as a pattern that matches itself only; checked: `err composite-clear` otherwise).
+`db.get(name=n, store)` lists the matches of `n` first (none: `LookupError`, several: `ValueError`, nothing is read) and then
+retrieves the one key: the retrieval by the register index of that key.
 Every constituent is a `Registry.step`, so the theorems about `step` / `run` cover these requests. -/
 
 inductive Item
   | prim (op : Op)
   | loadl (w : Which) (read : Bool) (files : List (Str × Bool × Bool × List Str))    -- (file, exists, indexed, names)
   | clearl (w : Which) (pats : List Str)
+  | get1 (w : Which) (name : Str) (store : Bool)     -- `get(name=…)` / `geta(name=…)`: exactly one match required
 
 /-- The model operations a request stands for in state `s`, or the error it is rejected with. -/
 def expand (s : State) : Item → Except String (List Op)
@@ -119,6 +122,12 @@ def expand (s : State) : Item → Except String (List Op)
     let ops : List Op := m.map fun k => .clear w (some k)
     let s' := ops.foldl (fun st op => (step st op).1) s
     if (getDb s' w).keys == d.keys.filter (fun k => !m.contains k) then .ok ops else .error "err composite-clear"
+  | .get1 w name store =>
+    let d := getDb s w
+    match listKeys d.keys [name] with
+    | [] => .error "err lookup"
+    | [k] => .ok [.getInd w (d.keys.idxOf k) store]
+    | _ => .error "err value"
 
 def parseItem? : List String → Option Item
   | "loadl" :: w :: read :: rest => do
@@ -127,6 +136,7 @@ def parseItem? : List String → Option Item
       | _ => none
     some (.loadl (← which? w) (← bool? read) files)
   | ["clearl", w, pats] => do some (.clearl (← which? w) (← strList? pats))
+  | ["get1", w, name, store] => do some (.get1 (← which? w) (← unhex? name) (← bool? store))
   | toks => (parseOp? toks).map .prim
 
 def runOps (s : State) : List Item → List String
@@ -135,6 +145,7 @@ def runOps (s : State) : List Item → List String
     let (s', o) : State × String := match it, expand s it with
       | .prim op, _ => let r := step s op; (r.1, showOut r.2)
       | _, .error e => (s, e)
+      | .get1 .., .ok [op] => let r := step s op; (r.1, showOut r.2)
       | _, .ok ops => (ops.foldl (fun st op => (step st op).1) s, "done")
     (o ++ " # " ++ digest s'.a ++ " # " ++ digest s'.b) :: runOps s' its
 
@@ -181,6 +192,10 @@ def bindOps (b : Binding.Bind) (s : State) : List Item → List String
         let r := step s op
         (b', r.1, showBindOut b'.origins r.2)
       | _, .error e => (b, s, e)
+      | .get1 .., .ok [op] =>
+        let b' := Binding.step b s op
+        let r := step s op
+        (b', r.1, showBindOut b'.origins r.2)
       | _, .ok ops =>
         let bs := ops.foldl (fun (acc : Binding.Bind × State) op => (Binding.step acc.1 acc.2 op, (step acc.2 op).1)) (b, s)
         (bs.1, bs.2, "done")
